@@ -28,6 +28,8 @@ type KeyedPRNG struct {
 func NewKeyedPRNG(key []byte) (*KeyedPRNG, error) {
 	var err error
 	prng := new(KeyedPRNG)
+	prng.key = make([]byte, len(key))
+	copy(prng.key, key)
 	prng.xof, err = blake2b.NewXOF(blake2b.OutputLengthUnknown, key)
 	return prng, err
 }
